@@ -11,7 +11,7 @@ def build(cb):
 
 def roundtrip(ctx, pid, enc_cases, rule, model_limit=200000, extra_lines=None):
     """enc_cases: list of (method, tag, encoder line).  The encoder prints '<hex> <len> <fnv> [wf] ...'."""
-    rnd = random.Random(ctx.seed * 2147483647 + hash(pid) % 1000)
+    rnd = random.Random(ctx.seed * 2147483647 + sum(pid.encode()) % 1000)     # (was hash(pid): salted per process, so a run could not be repeated)
     cb = CBuild(pid)
     viol, mism = [], []
     dist = collections.Counter()
